@@ -27,6 +27,7 @@ def readState (state : String) (isKey : Bool) : FileRead :=
       match state.splitOn ":" with
       | [_, p, how] => if how == "e0" || how == "e1" then (p.toList.head?).bind pairId else none
       | _ => none
+    else if state.startsWith "chaincut:" then none   -- a later block is damaged: the file is a truncation prefix
     else if state.startsWith "chain:" && !isKey then ((state.drop 6).toString.toList.head?).bind pairId
     else none
 
